@@ -42,34 +42,48 @@ use super::{
     ParserInput,
 };
 
+/// Parse an optional leading minus sign, returning whether one was present.  No other operator is
+/// a valid sign for a literal operand.
+fn parse_negation(input: ParserInput) -> (ParserInput, bool) {
+    match super::split_first_token(input) {
+        Some((Token::Operator(Operator::Minus), remainder)) => (remainder, true),
+        _ => (input, false),
+    }
+}
+
+/// Parse an optionally negated real literal.
+fn parse_signed_real<'a>(input: ParserInput<'a>) -> InternalParserResult<'a, f64> {
+    let (input, negative) = parse_negation(input);
+    let (input, value) = token!(Float(v))(input)?;
+    Ok((input, if negative { -value } else { value }))
+}
+
+/// Parse an optionally negated integer literal, failing if it does not fit into an [`i64`].
+fn parse_signed_integer<'a>(input: ParserInput<'a>) -> InternalParserResult<'a, i64> {
+    let (remainder, negative) = parse_negation(input);
+    let (remainder, value) = token!(Integer(v))(remainder)?;
+    let value = if negative {
+        0i64.checked_sub_unsigned(value)
+    } else {
+        i64::try_from(value).ok()
+    };
+    match value {
+        Some(value) => Ok((remainder, value)),
+        None => Err(nom::Err::Failure(InternalParseError::from_kind(
+            input,
+            ParserErrorKind::UnsupportedPrecision,
+        ))),
+    }
+}
+
 /// Parse the operand of an arithmetic instruction, which may be a literal integer, literal real
 /// number, or memory reference.
 pub(crate) fn parse_arithmetic_operand<'a>(
     input: ParserInput<'a>,
 ) -> InternalParserResult<'a, ArithmeticOperand> {
     alt((
-        map(
-            tuple((opt(token!(Operator(o))), token!(Float(v)))),
-            |(op, v)| {
-                let sign = match op {
-                    None => 1f64,
-                    Some(Operator::Minus) => -1f64,
-                    _ => panic!("Implement this error"), // TODO
-                };
-                ArithmeticOperand::LiteralReal(sign * v)
-            },
-        ),
-        map(
-            tuple((opt(token!(Operator(o))), token!(Integer(v)))),
-            |(op, v)| {
-                let sign = match op {
-                    None => 1,
-                    Some(Operator::Minus) => -1,
-                    _ => panic!("Implement this error"), // TODO
-                };
-                ArithmeticOperand::LiteralInteger(sign * (v as i64))
-            },
-        ),
+        map(parse_signed_real, ArithmeticOperand::LiteralReal),
+        map(parse_signed_integer, ArithmeticOperand::LiteralInteger),
         map(parse_memory_reference, ArithmeticOperand::MemoryReference),
     ))(input)
 }
@@ -80,28 +94,8 @@ pub(crate) fn parse_comparison_operand<'a>(
     input: ParserInput<'a>,
 ) -> InternalParserResult<'a, ComparisonOperand> {
     alt((
-        map(
-            tuple((opt(token!(Operator(o))), token!(Float(v)))),
-            |(op, v)| {
-                let sign = match op {
-                    None => 1f64,
-                    Some(Operator::Minus) => -1f64,
-                    _ => panic!("Implement this error"), // TODO
-                };
-                ComparisonOperand::LiteralReal(sign * v)
-            },
-        ),
-        map(
-            tuple((opt(token!(Operator(o))), token!(Integer(v)))),
-            |(op, v)| {
-                let sign = match op {
-                    None => 1,
-                    Some(Operator::Minus) => -1,
-                    _ => panic!("Implement this error"), // TODO
-                };
-                ComparisonOperand::LiteralInteger(sign * (v as i64))
-            },
-        ),
+        map(parse_signed_real, ComparisonOperand::LiteralReal),
+        map(parse_signed_integer, ComparisonOperand::LiteralInteger),
         map(parse_memory_reference, ComparisonOperand::MemoryReference),
     ))(input)
 }
@@ -111,17 +105,7 @@ pub(crate) fn parse_binary_logic_operand<'a>(
     input: ParserInput<'a>,
 ) -> InternalParserResult<'a, BinaryOperand> {
     alt((
-        map(
-            tuple((opt(token!(Operator(o))), token!(Integer(v)))),
-            |(op, v)| {
-                let sign = match op {
-                    None => 1,
-                    Some(Operator::Minus) => -1,
-                    _ => panic!("Implement this error"), // TODO
-                };
-                BinaryOperand::LiteralInteger(sign * (v as i64))
-            },
-        ),
+        map(parse_signed_integer, BinaryOperand::LiteralInteger),
         map(parse_memory_reference, BinaryOperand::MemoryReference),
     ))(input)
 }
